@@ -20,6 +20,7 @@ package sql
 import (
 	"errors"
 	"fmt"
+	"math"
 	"strconv"
 
 	commonconstants "github.com/lindb/common/constants"
@@ -115,6 +116,53 @@ func (q *queryStmtParser) validation() error {
 	}
 	if !q.allFields && len(q.selectItems) == 0 {
 		return fmt.Errorf("select fields cannbe be empty")
+	}
+	for _, exprs := range [][]stmt.Expr{q.selectItems, {q.havingStmt}, q.orderBy} {
+		for _, expr := range exprs {
+			if err := checkComplete(expr); err != nil {
+				return err
+			}
+		}
+	}
+	return nil
+}
+
+// checkComplete rejects expressions with a missing operand (e.g. a duration literal or '*' used as
+// operand) or a non-finite number: such a statement cannot be serialized for the leaf nodes.
+func checkComplete(expr stmt.Expr) error {
+	switch e := expr.(type) {
+	case nil:
+		return nil
+	case *stmt.SelectItem:
+		return checkOperands(e.Expr)
+	case *stmt.OrderByExpr:
+		return checkOperands(e.Expr)
+	default:
+		return checkOperands(expr)
+	}
+}
+
+func checkOperands(expr stmt.Expr) error {
+	switch e := expr.(type) {
+	case nil:
+		return errors.New("incomplete expression: missing operand")
+	case *stmt.ParenExpr:
+		return checkOperands(e.Expr)
+	case *stmt.BinaryExpr:
+		if err := checkOperands(e.Left); err != nil {
+			return err
+		}
+		return checkOperands(e.Right)
+	case *stmt.CallExpr:
+		for _, param := range e.Params {
+			if err := checkOperands(param); err != nil {
+				return err
+			}
+		}
+	case *stmt.NumberLiteral:
+		if math.IsInf(e.Val, 0) || math.IsNaN(e.Val) {
+			return errors.New("number out of range")
+		}
 	}
 	return nil
 }
